@@ -22,4 +22,4 @@ if ! cmp -s _CoqProject.new _CoqProject || [ ! -f Makefile.coq ]; then
 else
   rm -f _CoqProject.new
 fi
-timeout 3000 make -k -f Makefile.coq -j"${VERIF_JOBS:-16}" 2>&1
+timeout 3000 make -k -f Makefile.coq -j"${VERIF_JOBS:-16}" COQC="timeout ${VERIF_FILE_TIMEOUT:-900} coqc" 2>&1
